@@ -187,6 +187,31 @@ Section SoundnessMaj.
     apply N.leb_le. apply A2. lia.
   Qed.
 
+  Lemma P_maj_final : forall t p0 v,
+    In p0 ps -> gives_ok st pr p0 v ->
+    (forall p1 v1, In p1 ps -> gives_ok st pr p1 v1 -> v_id v1 <> v_id v ->
+       (cnt st pr ps (fun x => (x <? p_timeout pr)%N) (v_id v1) <= cnt st pr ps (fun x => (x <=? t)%N) (v_id v))%Z
+       /\ (cnt st pr ps (fun x => (x <? p_timeout pr)%N) (v_id v1) = cnt st pr ps (fun x => (x <=? t)%N) (v_id v)
+           -> vslot pr v1 <= vslot pr v)) ->
+    forallb (fun tu : N * value =>
+               (v_id (snd tu) =? v_id v)
+               || ((cnt_lt (v_id (snd tu)) (p_timeout pr) <=? cnt_le (v_id v) t)
+                   && (if cnt_lt (v_id (snd tu)) (p_timeout pr) =? cnt_le (v_id v) t
+                       then slot_of_id (v_id (snd tu)) <=? slot_of_id (v_id v) else true))) ok = true.
+  Proof.
+    intros t p0 v Hp0 Hg Hall.
+    pose proof (cnt_le_Z (v_id v) t) as Cn. cbv beta in Cn.
+    apply forallb_forall. intros [t1 v1] Hin. apply in_ok in Hin as [p1 (Hp1 & Hg1 & ->)]. cbn [snd].
+    destruct (N.eqb_spec (v_id v1) (v_id v)) as [Q0|Q0]; [reflexivity|]. cbn [orb].
+    destruct (Hall p1 v1 Hp1 Hg1 Q0) as [A1 A2].
+    pose proof (cnt_lt_Z (v_id v1) (p_timeout pr)) as Cl. cbv beta in Cl.
+    apply andb_true_iff. split; [lia|].
+    destruct (N.eqb_spec (count_if (fun tv : N * value => (v_id (snd tv) =? v_id v1) && (fst tv <? p_timeout pr)) ok)
+                         (count_if (fun tv : N * value => (v_id (snd tv) =? v_id v) && (fst tv <=? t)) ok)) as [Q|Q]; [|reflexivity].
+    rewrite (slot_of_id_ok st pr ps p1 v1 Hids Hp1 Hg1), (slot_of_id_ok st pr ps p0 v Hids Hp0 Hg).
+    apply N.leb_le. apply A2. lia.
+  Qed.
+
   Lemma P_maj_err : forall (thr : N),
     (forall p1 v1, In p1 ps -> gives_ok st pr p1 v1 ->
        (cnt st pr ps (fun x => (x <? p_timeout pr)%N) (v_id v1) < Z.max 1 (Z.of_N thr))%Z) ->
@@ -221,17 +246,21 @@ Proof.
   - (* attestation data majority *)
     assert (Hnf : template_of st <> TFirst) by (rewrite Et; discriminate).
     destruct (maj_outcome_spec st pr ps res ot (or_introl Et) Hids Hin)
-      as [_ [[p0 [v (Hr & Hp0 & Hg & Ht & H1 & Hthr & Hall)]] | [Hr Hnone]]]; unfold maj_thr in *; try rewrite Et in Hthr; try rewrite Et in Hnone.
+      as [_ [[p0 [v (Hr & Hp0 & Hg & Ht & H1 & Hthr & Hall & Hfin)]] | [Hr Hnone]]]; unfold maj_thr in *; try rewrite Et in Hthr; try rewrite Et in Hnone.
     + rewrite (result_val st pr ps Htyped p0 v Hnf Hp0 Hg) in Hr. subst res.
-      rewrite (P_maj_val st pr ps Hids (p_threshold pr) ot p0 v Hp0 Hg H1 Hthr Hall). reflexivity.
+      rewrite (P_maj_val st pr ps Hids (p_threshold pr) ot p0 v Hp0 Hg H1 Hthr Hall). rewrite Et in Hfin.
+      cbn [maj_final andb]. rewrite (P_maj_final st pr ps Hids ot p0 v Hp0 Hg (Hfin eq_refl)). reflexivity.
     + subst res. apply (P_maj_err st pr ps). exact Hnone.
   - (* block root majority *)
     assert (Hnf : template_of st <> TFirst) by (rewrite Et; discriminate).
     destruct (maj_outcome_spec st pr ps res ot (or_intror Et) Hids Hin)
-      as [_ [[p0 [v (Hr & Hp0 & Hg & Ht & H1 & Hthr & Hall)]] | [Hr Hnone]]]; unfold maj_thr in *; try rewrite Et in Hthr; try rewrite Et in Hnone.
+      as [_ [[p0 [v (Hr & Hp0 & Hg & Ht & H1 & Hthr & Hall & Hfin)]] | [Hr Hnone]]]; unfold maj_thr in *; try rewrite Et in Hthr; try rewrite Et in Hnone.
     + rewrite (result_val st pr ps Htyped p0 v Hnf Hp0 Hg) in Hr. subst res.
-      rewrite (P_maj_val st pr ps Hids 0 ot p0 v Hp0 Hg H1 Hthr Hall). cbn [andb].
-      apply (soft_rule_ok st pr ps _ ot (or_intror Et) Hin).
+      rewrite (P_maj_val st pr ps Hids 0 ot p0 v Hp0 Hg H1 Hthr Hall). cbn [andb]. rewrite Et in Hfin.
+      destruct (maj_final TMajRoot (p_timeout pr) ot) eqn:Ef.
+      * rewrite (P_maj_final st pr ps Hids ot p0 v Hp0 Hg (Hfin eq_refl)). cbn [andb].
+        apply (soft_rule_ok st pr ps _ ot (or_intror Et) Hin).
+      * cbn [andb]. apply (soft_rule_ok st pr ps _ ot (or_intror Et) Hin).
     + subst res. apply (P_maj_err st pr ps 0). exact Hnone.
   - (* first *)
     destruct (first_outcome_spec st pr ps res ot Et Hin) as [_ [[p0 [v (Hr & Hp0 & Hg & Ht & Hmin)]] | [Hr [Ht Hnone]]]].
@@ -331,22 +360,34 @@ Proof.
     + apply none_before_sound. exact Hm.
   - (* attestation data majority *)
     destruct res as [id| | | |]; try discriminate Hm.
-    + apply andb_true_iff in Hm as [Hm _]. apply andb_true_iff in Hm as [Hm Hall]. apply andb_true_iff in Hm as [H1 Hthr].
+    + apply andb_true_iff in Hm as [Hm _]. apply andb_true_iff in Hm as [Hm Hfin].
+      apply andb_true_iff in Hm as [Hm Hall]. apply andb_true_iff in Hm as [H1 Hthr].
       split; [|discriminate].
       pose proof (cnt_le_Z st pr ps id ot) as Cn. cbv beta in Cn.
       assert (Hpos : (0 < cnt st pr ps (fun x => (x <=? ot)%N) id)%Z) by lia.
       destruct (cnt_pos_witness st pr ps _ _ Hpos) as [p0 [v (Hp0 & Hg & Hid & Ht)]].
       exists p0, v. split; [exact Hp0|]. split; [exact Hg|]. split; [exact Hid|]. split; [lia|].
-      split; [lia|]. split; [unfold maj_thr; rewrite Et; lia|].
-      intros p1 v1 Hp1 Hg1. rewrite forallb_forall in Hall.
-      assert (Hin1 : In (pv_time p1, v1) (filter (fun tv : N * value => spec_valid st pr (v_raw (snd tv))) (answers pr ps)))
-        by (apply in_ok; exists p1; auto).
-      apply Hall in Hin1. cbn [snd] in Hin1. apply andb_true_iff in Hin1 as [A1 A2].
-      pose proof (cnt_lt_Z st pr ps (v_id v1) ot) as Cl. cbv beta in Cl.
-      split; [lia|]. intro Eq.
-      match type of A2 with (if ?b then _ else _) = true => replace b with true in A2 by lia end.
-      rewrite (slot_of_id_ok st pr ps p1 v1 Hids Hp1 Hg1) in A2. subst id.
-      rewrite (slot_of_id_ok st pr ps p0 v Hids Hp0 Hg) in A2. lia.
+      split; [lia|]. split; [unfold maj_thr; rewrite Et; lia|]. split.
+      * intros p1 v1 Hp1 Hg1. rewrite forallb_forall in Hall.
+        assert (Hin1 : In (pv_time p1, v1) (filter (fun tv : N * value => spec_valid st pr (v_raw (snd tv))) (answers pr ps)))
+          by (apply in_ok; exists p1; auto).
+        apply Hall in Hin1. cbn [snd] in Hin1. apply andb_true_iff in Hin1 as [A1 A2].
+        pose proof (cnt_lt_Z st pr ps (v_id v1) ot) as Cl. cbv beta in Cl.
+        split; [lia|]. intro Eq.
+        match type of A2 with (if ?b then _ else _) = true => replace b with true in A2 by lia end.
+        rewrite (slot_of_id_ok st pr ps p1 v1 Hids Hp1 Hg1) in A2. subst id.
+        rewrite (slot_of_id_ok st pr ps p0 v Hids Hp0 Hg) in A2. lia.
+      * intros Hf p1 v1 Hp1 Hg1 Hne. rewrite Hf in Hfin. rewrite forallb_forall in Hfin.
+        assert (Hin1 : In (pv_time p1, v1) (filter (fun tv : N * value => spec_valid st pr (v_raw (snd tv))) (answers pr ps)))
+          by (apply in_ok; exists p1; auto).
+        apply Hfin in Hin1. cbn [snd] in Hin1.
+        replace (v_id v1 =? id) with false in Hin1 by (symmetry; apply N.eqb_neq; exact Hne).
+        cbn [orb] in Hin1. apply andb_true_iff in Hin1 as [A1 A2].
+        pose proof (cnt_lt_Z st pr ps (v_id v1) (p_timeout pr)) as Cl. cbv beta in Cl.
+        split; [lia|]. intro Eq.
+        match type of A2 with (if ?b then _ else _) = true => replace b with true in A2 by lia end.
+        rewrite (slot_of_id_ok st pr ps p1 v1 Hids Hp1 Hg1) in A2. subst id.
+        rewrite (slot_of_id_ok st pr ps p0 v Hids Hp0 Hg) in A2. lia.
     + intros p1 v1 Hp1 Hg1. rewrite forallb_forall in Hm.
       assert (Hin1 : In (pv_time p1, v1) (filter (fun tv : N * value => spec_valid st pr (v_raw (snd tv))) (answers pr ps)))
         by (apply in_ok; exists p1; auto).
@@ -355,22 +396,34 @@ Proof.
       unfold maj_thr. rewrite Et. lia.
   - (* block root majority *)
     destruct res as [id| | | |]; try discriminate Hm.
-    + apply andb_true_iff in Hm as [Hm Hsoft]. apply andb_true_iff in Hm as [Hm Hall]. apply andb_true_iff in Hm as [H1 Hthr].
+    + apply andb_true_iff in Hm as [Hm Hsoft]. apply andb_true_iff in Hm as [Hm Hfin].
+      apply andb_true_iff in Hm as [Hm Hall]. apply andb_true_iff in Hm as [H1 Hthr].
       split; [|intros _; apply soft_rule_sound; exact Hsoft].
       pose proof (cnt_le_Z st pr ps id ot) as Cn. cbv beta in Cn.
       assert (Hpos : (0 < cnt st pr ps (fun x => (x <=? ot)%N) id)%Z) by lia.
       destruct (cnt_pos_witness st pr ps _ _ Hpos) as [p0 [v (Hp0 & Hg & Hid & Ht)]].
       exists p0, v. split; [exact Hp0|]. split; [exact Hg|]. split; [exact Hid|]. split; [lia|].
-      split; [lia|]. split; [unfold maj_thr; rewrite Et; lia|].
-      intros p1 v1 Hp1 Hg1. rewrite forallb_forall in Hall.
-      assert (Hin1 : In (pv_time p1, v1) (filter (fun tv : N * value => spec_valid st pr (v_raw (snd tv))) (answers pr ps)))
-        by (apply in_ok; exists p1; auto).
-      apply Hall in Hin1. cbn [snd] in Hin1. apply andb_true_iff in Hin1 as [A1 A2].
-      pose proof (cnt_lt_Z st pr ps (v_id v1) ot) as Cl. cbv beta in Cl.
-      split; [lia|]. intro Eq.
-      match type of A2 with (if ?b then _ else _) = true => replace b with true in A2 by lia end.
-      rewrite (slot_of_id_ok st pr ps p1 v1 Hids Hp1 Hg1) in A2. subst id.
-      rewrite (slot_of_id_ok st pr ps p0 v Hids Hp0 Hg) in A2. lia.
+      split; [lia|]. split; [unfold maj_thr; rewrite Et; lia|]. split.
+      * intros p1 v1 Hp1 Hg1. rewrite forallb_forall in Hall.
+        assert (Hin1 : In (pv_time p1, v1) (filter (fun tv : N * value => spec_valid st pr (v_raw (snd tv))) (answers pr ps)))
+          by (apply in_ok; exists p1; auto).
+        apply Hall in Hin1. cbn [snd] in Hin1. apply andb_true_iff in Hin1 as [A1 A2].
+        pose proof (cnt_lt_Z st pr ps (v_id v1) ot) as Cl. cbv beta in Cl.
+        split; [lia|]. intro Eq.
+        match type of A2 with (if ?b then _ else _) = true => replace b with true in A2 by lia end.
+        rewrite (slot_of_id_ok st pr ps p1 v1 Hids Hp1 Hg1) in A2. subst id.
+        rewrite (slot_of_id_ok st pr ps p0 v Hids Hp0 Hg) in A2. lia.
+      * intros Hf p1 v1 Hp1 Hg1 Hne. rewrite Hf in Hfin. rewrite forallb_forall in Hfin.
+        assert (Hin1 : In (pv_time p1, v1) (filter (fun tv : N * value => spec_valid st pr (v_raw (snd tv))) (answers pr ps)))
+          by (apply in_ok; exists p1; auto).
+        apply Hfin in Hin1. cbn [snd] in Hin1.
+        replace (v_id v1 =? id) with false in Hin1 by (symmetry; apply N.eqb_neq; exact Hne).
+        cbn [orb] in Hin1. apply andb_true_iff in Hin1 as [A1 A2].
+        pose proof (cnt_lt_Z st pr ps (v_id v1) (p_timeout pr)) as Cl. cbv beta in Cl.
+        split; [lia|]. intro Eq.
+        match type of A2 with (if ?b then _ else _) = true => replace b with true in A2 by lia end.
+        rewrite (slot_of_id_ok st pr ps p1 v1 Hids Hp1 Hg1) in A2. subst id.
+        rewrite (slot_of_id_ok st pr ps p0 v Hids Hp0 Hg) in A2. lia.
     + intros p1 v1 Hp1 Hg1. rewrite forallb_forall in Hm.
       assert (Hin1 : In (pv_time p1, v1) (filter (fun tv : N * value => spec_valid st pr (v_raw (snd tv))) (answers pr ps)))
         by (apply in_ok; exists p1; auto).
